@@ -313,14 +313,20 @@ def add_user_templates(job, g):
     volumes = {}
     user_templates = {}
     user_volumes = {}
-    for n in g.sample(names, g.randint(1, min(2, len(names)))):
+    chosen = g.sample(names, g.randint(1, min(2, len(names))))
+    if job.get("alias_pair") and all(x in names for x in job["alias_pair"]):
+        chosen = list(job["alias_pair"])          # templates for two residue names with the same labelled graph
+    for n in chosen:
         rt = spec["restypes"][n]
-        what = g.choice(["template", "volume", "both"])
+        what = g.choice(["template", "volume", "both"]) if not job.get("alias_pair") else "template"
         if what in ("template", "both"):
             atoms = {}
             ut = {}
+            shared = job.get("alias_pair") and user_templates.get(job["alias_pair"][0])
             for k, a in enumerate(rt["atoms"]):
                 xyz = [round(0.3 * k + g.uniform(-0.1, 0.1), 3), round(g.uniform(-0.2, 0.2), 3), round(g.uniform(-0.2, 0.2), 3)]
+                if shared:
+                    xyz = list(shared[a["name"]])     # both names describe one labelled graph: one geometry
                 atoms[a["name"]] = [a["atype"], xyz]
                 ut[a["name"]] = xyz
             bonds = [[rt["atoms"][a]["name"], rt["atoms"][b]["name"]] for a, b, *_ in rt["bonds"]]
@@ -463,3 +469,53 @@ def add_pre_spec(job, g):
         mt.pop("residue_override", None)
     job["pre_spec"] = alt
     return True
+
+
+def add_alias_restype(job, g):
+    """a second residue NAME with exactly the atoms and bonds of an existing one (same labelled graph, so both share
+    one template), used in the same molecules; returns the two names or None"""
+    import copy
+    spec = job["spec"]
+    cands = [n for n, rt in sorted(spec["restypes"].items()) if not rt["vsites"] and len(rt["atoms"]) >= 2
+             and any(n in mt["residues"] for mt in spec["moltypes"])]
+    if not cands:
+        return None
+    n = g.choice(cands)
+    alias = "RX" if n != "RX" else "RY"
+    spec["restypes"][alias] = copy.deepcopy(spec["restypes"][n])
+    spec["restypes"][alias]["name"] = alias
+    done = False
+    for mt in spec["moltypes"]:
+        if mt.get("residue_override") or mt.get("restype_override"):
+            continue
+        idxs = [i for i, r in enumerate(mt["residues"]) if r == n]
+        for i in idxs[1::2] or idxs[:1]:
+            mt["residues"][i] = alias
+            done = True
+    return (n, alias) if done else None
+
+
+def add_list_order(job, g):
+    """residues listed in the itp in another order than their residue ids (side chains after each backbone residue,
+    blocks numbered independently ...)"""
+    done = False
+    for mt in job["spec"]["moltypes"]:
+        n = len(mt["residues"])
+        if n >= 3 and g.random() < 0.7:
+            mode = g.choice(["interleave", "reverse", "shuffle"])
+            if mode == "interleave":
+                half = (n + 1) // 2
+                order = []
+                for k in range(half):
+                    order.append(k)
+                    if half + k < n:
+                        order.append(half + k)
+            elif mode == "reverse":
+                order = list(range(n - 1, -1, -1))
+            else:
+                order = list(range(n))
+                g.shuffle(order)
+            mt["list_order"] = order
+            done = True
+    job["list_order"] = done
+    return done
